@@ -36,6 +36,8 @@ func main() {
 		oracle(os.Args[2:])
 	case "replay":
 		replay(os.Args[2:])
+	case "seq": // phase 4: per-site model, scripted sinks and sources (seq.go)
+		seqPass(os.Args[2:])
 	default:
 		fmt.Fprintln(os.Stderr, "unknown mode")
 		os.Exit(2)
@@ -300,6 +302,9 @@ type caseW struct {
 	Together bool   `json:"together,omitempty"`
 	Perm     bool   `json:"permissive,omitempty"`
 	Path     string `json:"path,omitempty"`
+	// scripted sink / source (sides "seqwrite", "seqread"; seq.go)
+	Script   string `json:"script,omitempty"`
+	MaxLines int    `json:"max_lines,omitempty"`
 }
 
 type failure struct {
@@ -495,6 +500,8 @@ func readFileChecks(sum *summary, emit func(failure)) {
 func replayCase(c caseW) []failure {
 	var out []failure
 	switch c.Side {
+	case "seqwrite", "seqread":
+		return replaySeq(c)
 	case "write":
 		var s *sample
 		if c.TextHex != "" {
